@@ -761,16 +761,12 @@ class ISLaSolver:
             failed parse.
         :return: A parsed `DerivationTree`.
         """
-        grammar = copy.deepcopy(self.grammar)
-        if nonterminal != "<start>":
-            grammar |= {"<start>": [nonterminal]}
-            grammar = delete_unreachable(grammar)
-
-        parser = EarleyParser(grammar)
+        # Parse with `nonterminal` as start symbol. (Redefining `<start>` as
+        # `nonterminal` would change the language of all nonterminals from which
+        # `<start>` is reachable.)
+        parser = EarleyParser(self.grammar, start_symbol=nonterminal)
         try:
             parse_tree = next(parser.parse(inp))
-            if nonterminal != "<start>":
-                parse_tree = parse_tree[1][0]
             tree = DerivationTree.from_parse_tree(parse_tree)
         except SyntaxError as err:
             if not silent:
